@@ -31,6 +31,10 @@ CHECKS = {
          "The library's own definition of 'in slice' is pinned and stated.", "deterministic simulation: history/order variation + order-free tally oracle"),
  "C17": ("exploration", "Two versions of an element are two checkpoints of one seeded edit history; the sliver diff in both directions is compared with a subtraction of the two abstract states. Weakest kind: a function of two slivers; simulation contributes the edit histories.", "4/C17",
          "Matching by name; SUB_INTERFACES judged where the library judges it.", "deterministic simulation (checkpointed histories) + reference diff"),
+ "C13": ("exploration", "Partitioning is the first stage of a simulated federation (aggregate managers -> brokers): every partition any run produces is checked against an independent reading of the annotated aggregate model. The property is a function of that model; the simulation contributes generated models and the workflow around it.", "4/C13",
+         "Aggregate models come from a seeded raw-graph generator, not from real site advertisements.", "deterministic simulation (federation world) + per-partition reference oracle"),
+ "C14": ("exploration", "Seeded federation runs: the scheduler decides delivery order, duplication, loss and re-send of advertisements, aggregates leaving and returning, snapshots/rollbacks, and at which backend call of a merge an exception is injected; after every event the combined model must equal an order-free union of what is currently merged, with bounded liveness once faults stop. Sampling of schedules and fault sequences.", "4/C14",
+         "merge/unmerge run on the in-memory shared store through the abstract interface (as the property says); real Neo4j/APOC semantics are not exercised.", "deterministic simulation with fault injection: message reordering/duplication/loss, crash inside merge + rollback, membership changes"),
 }
 checks = []
 for pid,(cat,text,ref,note,tech) in sorted(CHECKS.items()):
